@@ -262,16 +262,44 @@ func (w *world) judge(p proxyT) *verdict {
 			continue
 		}
 		may, sure := false, false
-		for _, l := range sc.Listeners {
-			if listenerMayImportVS(l, p.NS, vs) {
-				may = true
-			}
-			if l.Port == nil && listenerSurelyImportsVS(l, p.NS, vs) {
-				sure = true
-			}
-		}
 		if p.Type == "router" {
-			may, sure = false, false // mesh VirtualServices do not shape a router without Gateway resources
+			// a router is shaped by the rules bound to a Gateway that selects it, through the server
+			// hosts ("namespace/dnsName": the rule must live in that namespace, "." = the Gateway's own,
+			// "*" or no prefix = any); mesh rules do not shape it
+			for _, g := range w.Gateways {
+				if !contains(vs.Gateways, g.NS+"/"+g.Name) || !subsetLabels(g.Selector, p.Labels) || g.NS != p.NS {
+					continue
+				}
+				for _, sh := range g.Hosts {
+					n, h := "*", sh
+					if i := strings.Index(sh, "/"); i >= 0 {
+						n, h = sh[:i], sh[i+1:]
+					}
+					if n == "." {
+						n = g.NS
+					}
+					if n != "*" && n != vs.NS {
+						continue
+					}
+					for _, vh := range vs.Hosts {
+						if hostOverlap(vh, h) {
+							may = true
+						}
+						if hostSubset(vh, h) {
+							sure = true
+						}
+					}
+				}
+			}
+		} else if vs.mesh() {
+			for _, l := range sc.Listeners {
+				if listenerMayImportVS(l, p.NS, vs) {
+					may = true
+				}
+				if l.Port == nil && listenerSurelyImportsVS(l, p.NS, vs) {
+					sure = true
+				}
+			}
 		}
 		if may {
 			v.VSMay = append(v.VSMay, vs.Name)
